@@ -262,10 +262,29 @@ static void ares_event_process_updates(ares_event_thread_t *e)
         newev->e = NULL;
         ares_event_destroy_cb(newev);
       } else {
+        ares_bool_t tracked;
+
         if (newev->fd == ARES_SOCKET_BAD) {
-          ares_htable_vpvp_insert(e->ev_cust_handles, newev->data, newev);
+          tracked =
+            ares_htable_vpvp_insert(e->ev_cust_handles, newev->data, newev);
         } else {
-          ares_htable_asvp_insert(e->ev_sock_handles, newev->fd, newev);
+          tracked =
+            ares_htable_asvp_insert(e->ev_sock_handles, newev->fd, newev);
+        }
+
+        if (!tracked) {
+          /* LCOV_EXCL_START: OutOfMemory */
+          /* Can't keep track of it.  Undo the registration with the event
+           * system, otherwise it keeps reporting (or never polls) a handle
+           * nobody owns, and release the event instead of leaking it. */
+          if (e->ev_signal == newev) {
+            e->ev_signal = NULL;
+          }
+          if (e->configchg != NULL && newev->data == (void *)e->configchg) {
+            e->configchg = NULL; /* freed along with its event */
+          }
+          ares_event_destroy_cb(newev);
+          /* LCOV_EXCL_STOP */
         }
       }
       continue;
@@ -549,6 +568,17 @@ ares_status_t ares_event_thread_init(ares_channel_t *channel)
    * and processed the list itself. We don't want any sort of race conditions
    * (like the event system wake handle itself). */
   ares_event_process_updates(e);
+
+  /* Without its wake handle the thread could never be told about new work or
+   * to shut down */
+  if (e->ev_signal == NULL) {
+    /* LCOV_EXCL_START: OutOfMemory */
+    ares_event_thread_destroy_int(e);
+    channel->sock_state_cb      = NULL;
+    channel->sock_state_cb_data = NULL;
+    return ARES_ENOMEM;
+    /* LCOV_EXCL_STOP */
+  }
 
   /* Start thread */
   if (ares_thread_create(&e->thread, ares_event_thread, e) != ARES_SUCCESS) {
